@@ -335,6 +335,70 @@ def subsampleLoop (inds : List Indiv) (want : List (Nat × Nat)) :
         | [] => (none, [])
         | d :: ds => subsampleLoop inds want ps ds (acc ++ [(p, chosenCalls gts d)])
 
+/-! ### the text level of a sample column (round 7): the genotype-token decisions of both branches, through the GENERATED tests
+
+    `vcfSubDrawable gt dp` (sub-sampling branch: may this individual be drawn?), `vcfNoSubSkip ad dp` (branch without sub-sampling: is
+    this sample skipped?), `vcfGtStride`, `vcfGtRefTok`, `vcfGtAltTok` (which characters of GT are alleles, which are counted) are
+    generated from the source.  Here: the rendering of the abstract `Indiv` as the texts the reader sees, and the loops around the tests. -/
+
+/-- the character of one allele of a GT field: index 0..8, `9` = the missing allele '.' -/
+def alleleChar : Nat → Char
+  | 0 => '0' | 1 => '1' | 2 => '2' | 3 => '3' | 4 => '4' | 5 => '5' | 6 => '6' | 7 => '7' | 8 => '8' | 9 => '.' | _ => 'x'
+
+/-- the GT text of an individual (unphased; the tests below do not depend on the separator: `C13_vcf_called_individual`) -/
+def gtText (al : List Nat) : List Char := (al.map alleleChar).intersperse '/'
+
+/-- the DP text of an individual: flagged "no data" = a depth of 0, otherwise no DP field -/
+def dpText (nodata : Bool) : Option (List Char) := if nodata then some "0".toList else none
+
+/-- the generated test of the sub-sampling branch on the texts of an abstract individual -/
+def indivDrawable (x : Indiv) : Bool := vcfSubDrawable (gtText x.alleles) (dpText x.nodata)
+
+/-- python `s[::k]` (k ≥ 1): `skip` characters are passed over before the next one is taken -/
+def pyStrideAux (k : Nat) : Nat → List Char → List Char
+  | _, [] => []
+  | 0, x :: xs => x :: pyStrideAux k (k - 1) xs
+  | n + 1, _ :: xs => pyStrideAux k n xs
+
+def pyStride (k : Nat) (l : List Char) : List Char := pyStrideAux k 0 l
+
+/-- `gt[::k].count(tok)` -/
+def gtCount (tok : Char) (gt : List Char) : Nat := ((pyStride vcfGtStride gt).filter (· == tok)).length
+
+/-- `(gt[::k].count('0'), gt[::k].count('1'))` with the generated stride and tokens -/
+def gtCalls (gt : List Char) : Nat × Nat := (gtCount vcfGtRefTok gt, gtCount vcfGtAltTok gt)
+
+/-- one sample column as the reader sees it: population, GT text, AD and DP texts (`none`: no such field / dropped) -/
+structure SampleText where
+  pop : Option Nat
+  gt : List Char
+  ad : Option (List Char)
+  dp : Option (List Char)
+deriving Repr, DecidableEq
+
+/-- the individuals of population `p` offered to the draw on one line -/
+def textPool (l : List SampleText) (p : Nat) : List SampleText :=
+  l.filter fun x => x.pop == some p && vcfSubDrawable x.gt x.dp
+
+/-- populations of `subsample` in the order of their first sample column -/
+def textPopOrder (l : List SampleText) (want : List (Nat × Nat)) : List Nat :=
+  l.foldl (fun acc x =>
+    match x.pop with
+    | some p => if want.any (·.1 == p) && !acc.contains p then acc ++ [p] else acc
+    | none => acc) []
+
+/-- the sizes of the pools the sub-sampling loop draws from on one line, until a population has too few (`break`) -/
+def textPoolSizes (l : List SampleText) (want : List (Nat × Nat)) : List Nat → List Nat
+  | [] => []
+  | p :: ps =>
+      let n := (textPool l p).length
+      if n < wanted want p then [] else n :: textPoolSizes l want ps
+
+/-- branch without sub-sampling on the texts: the calls of population `p` on one line -/
+def textCallsOfPop (l : List SampleText) (p : Nat) : Nat × Nat :=
+  l.foldl (fun acc x =>
+    if x.pop == some p && !vcfNoSubSkip x.ad x.dp then (acc.1 + (gtCalls x.gt).1, acc.2 + (gtCalls x.gt).2) else acc) (0, 0)
+
 /-! ### dictionary semantics, chunks, bootstraps -/
 
 def sameKey (a b : Snp) : Bool := a.chrom == b.chrom && a.pos == b.pos && a.info == b.info
